@@ -79,8 +79,79 @@ def run_suite(pid, sources, templates, jobs=16):
     return list(zip(todo, res[:len(todo)])), list(zip(eq, res[len(todo):]))
 
 
+def validate_regex_engine(prog, seed=0, per_pattern=4000):
+    """Self-validation of sa.regexlang (not of bert-e): every regular
+    expression constant of the analysed tree that the engine accepts is
+    compared with Python's own `re.match` on random strings over the
+    engine's alphabet.  Returns (patterns, strings, mismatches)."""
+    import random
+    import re
+    from .regexlang import Lang, ALPHABET
+    pats = set()
+    for m in prog.modules.values():
+        for n in ast.walk(m.tree):
+            if isinstance(n, ast.Constant) and isinstance(n.value, str) and \
+                    len(n.value) > 3 and any(ch in n.value
+                                             for ch in '\\^$+*?('):
+                try:
+                    re.compile(n.value)
+                except re.error:
+                    continue
+                pats.add(n.value)
+    from .analysis import class_const
+    for c in prog.classes.values():
+        if 'pattern' in c.attrs:
+            try:
+                pats.add(class_const(prog, c, 'pattern'))
+            except AnalysisError:
+                pass
+    rnd = random.Random(seed)
+    tried = strings = 0
+    bad = []
+    chars = 'abdefghilmnoprstuvwxqz/.-_0159=A,+é٣€'
+    for p in sorted(pats):
+        try:
+            lang = Lang.from_regex(p)
+        except AnalysisError:
+            continue
+        tried += 1
+        # seeds close to the language: mutate the shortest witness
+        w = lang.witness() or ''
+        for _ in range(per_pattern):
+            if w and rnd.random() < 0.5:
+                s = list(w)
+                for _k in range(rnd.randint(0, 3)):
+                    pos = rnd.randint(0, len(s))
+                    op = rnd.random()
+                    if op < 0.4 and s:
+                        s[min(pos, len(s) - 1)] = rnd.choice(chars)
+                    elif op < 0.7:
+                        s.insert(pos, rnd.choice(chars))
+                    elif s:
+                        del s[min(pos, len(s) - 1)]
+                s = ''.join(s)
+            else:
+                s = ''.join(rnd.choice(chars)
+                            for _ in range(rnd.randint(0, 16)))
+            strings += 1
+            if bool(re.match(p, s)) != lang.accepts(s):
+                bad.append((p, s))
+    return tried, strings, bad
+
+
 def run_for(pid, prog, rep):
     """Thorough tier: record mutant / equivalent results in the evidence."""
+    if pid in ('C18', 'C11', 'C14', 'C07'):
+        seed = int(os.environ.get('VERIF_SEED', '0') or 0)
+        n, k, bad = validate_regex_engine(prog, seed)
+        rep.extra['regex_engine_validation'] = {
+            'patterns': n, 'strings': k, 'mismatches': len(bad),
+            'rule': 'sa.regexlang vs re.match on random strings (engine '
+                    'self-test, not a verdict about bert-e)'}
+        rep.evaluated(k)
+        if bad:
+            raise AnalysisError('regex engine disagrees with re.match on '
+                                '%r for %r' % (bad[0][1], bad[0][0]))
     mres, eres = run_suite(pid, prog.sources, prog.templates)
     killed = [m['name'] for m, r in mres if r[1] == 'violation']
     missed = [m['name'] for m, r in mres
